@@ -1,7 +1,39 @@
-/- Driver glue for C04: case lines `c04.<sub> <args…> | <impl…>` (stub until the property is built) -/
+/-
+  Driver glue for C04.
+    c04.pool <std|lowmem> <cap> <nreaders> <script…> | <blocks…>      (see harness c04.go)
+  M = the model's replay of the observed blocks; P = no reader left in Cond.Wait with an event
+  available after a heartbeat (SpecC04) and the capacity clauses (SpecC05).
+-/
 import FileD.Prelude.Tok
+import FileD.Drv.PoolTrace
+import FileD.Drv.StreamTrace
+import FileD.Spec.C04
+import FileD.Spec.C05
 namespace FileD.DrvC04
+open FileD
 
-def handle (_cmd : String) (_args _impl : List String) : Option (String × String) := none
+def handlePool (args impl : List String) : Option (String × String) := do
+  let (m, bs, isStd, cap) ← Drv.PoolTrace.run args impl
+  if m = "bad-impl" then pure (m, "bad-impl") else
+  let p := if SpecC04.holds isStd cap bs && SpecC05.holds cap bs then "ok" else "fail"
+  pure (m, p)
+
+/-- c04.stream <nprocs> <nstreams> <script…> | <trace tokens…> [unsettled] -/
+def handleStream (args impl : List String) : Option (String × String) :=
+  match args with
+  | np :: ns :: _ => do
+    let np ← Tok.nat? np; let ns ← Tok.nat? ns
+    let settled := impl.getLast? ≠ some "unsettled"
+    let toks := (if settled then impl else impl.dropLast).filter (· ≠ "-")
+    match Drv.StreamTrace.parseOps (toks.length + 1) toks with
+    | none => pure ("bad-impl", "bad-impl")
+    | some ops =>
+      pure (Drv.StreamTrace.replay (Stream.init ns np) ops, SpecC04.streamVerdict ns ops settled)
+  | _ => none
+
+def handle (cmd : String) (args impl : List String) : Option (String × String) :=
+  if cmd = "c04.pool" then handlePool args impl
+  else if cmd = "c04.stream" then handleStream args impl
+  else none
 
 end FileD.DrvC04
